@@ -1088,9 +1088,37 @@ def gen_formulas(item_prefix="G7"):
     add("sincOut_needed_new", find_stmt(newb, r"let\s+needed_input_size\s*=\s*(.*?);", "G7.sincOut_needed_new"), ft[T], {}, "N", "SincFixedOut::new_with_interpolator: needed_input_size", {"resample_ratio": "F", "chunk_size": "N"})
     add("sincOut_buffer_len_new", find_stmt(newb, r"let\s+buffer_channel_length\s*=\s*(.*?);", "G7.sincOut_buffer_len_new"), ft[T], {}, "N", "SincFixedOut::new_with_interpolator: buffer_channel_length", {"max_resample_ratio_relative": "F", "needed_input_size": "N"})
     add("sincOut_range_test", find_stmt(impl_method_body(src_, T, "set_resample_ratio", "G7"), RANGE, "G7.sincOut_range_test"), ft[T], {}, "B", "SincFixedOut::set_resample_ratio: accepted range", {"new_ratio": "F"})
+    # ---- make_interpolator: length rounding, cutoff scaling, and the arguments every kernel constructor receives
+    mk = strip_log_macros(fn_body(sinc, "make_interpolator", "G7.mkInterp")[1])
+    loc = {"sinc_len": "N", "resample_ratio": "F", "f_cutoff": "S"}
+    add("mkInterp_sinc_len", find_stmt(mk, r"let\s+sinc_len\s*=\s*(.*?);", "G7.mkInterp_sinc_len"), {}, {}, "N",
+        "make_interpolator: sinc_len rounded up to a multiple of 8 (through f32)", loc)
+    add("mkInterp_f_cutoff", find_stmt(mk, r"let\s+f_cutoff\s*=\s*(if.*?\})\s*;", "G7.mkInterp_f_cutoff"), {}, {}, "S",
+        "make_interpolator: cutoff scaled by the ratio when down-sampling (f32)", loc)
+    calls = re.findall(r"(\w+Interpolator)::(?:<T>::)?new\(\s*(.*?)\s*\)", mk, re.S)
+    names = [c[0] for c in calls]
+    for need in ("AvxInterpolator", "SseInterpolator", "ScalarInterpolator"):
+        if need not in names:
+            raise TranslateError("G7.mkInterp_dispatch", f"make_interpolator does not construct {need}")
+    arglists = {c[0]: [a.strip() for a in split_top(c[1]) if a.strip()] for c in calls}
+    want_args = ["sinc_len", "oversampling_factor", "f_cutoff", "window"]
+    for k, v in arglists.items():
+        if v != want_args:
+            raise TranslateError("G7.mkInterp_dispatch", f"{k}::new is called with {v}, expected {want_args}: "
+                                 "the kernels selected by the dispatch would not be built from the same parameters")
+    rest = mk[re.search(r"let\s+f_cutoff\s*=\s*if.*?\}\s*;", mk, re.S).end():]
+    if re.search(r"\blet\s+(mut\s+)?(sinc_len|f_cutoff|oversampling_factor|window)\b", rest):
+        raise TranslateError("G7.mkInterp_dispatch", "a constructor argument is rebound between the scaling and the dispatch")
+    out.append("/-- make_interpolator: every kernel constructor of the dispatch receives `(sinc_len, oversampling_factor, f_cutoff, window)`")
+    out.append("    with the rounded length and the scaled cutoff above (checked on the source text; kernels: "
+               + ", ".join(names) + ") -/")
+    out.append(f"def mkInterp_dispatch_kernels : Nat := {len(names)}")
+    out.append("")
     # ---- the three synchronous (FFT) resamplers: block sizing and the frame bookkeeping
+    mk_sigs = {k: sigs.pop(k) for k in ("mkInterp_sinc_len", "mkInterp_f_cutoff")}
     async_sigs = dict(sigs)
     sigs.clear()
+    sigs.update(mk_sigs)
     syn = strip_comments(read("synchro.rs"))
     NL = {"sample_rate_input": "N", "sample_rate_output": "N", "chunk_size_in": "N", "chunk_size_out": "N",
           "sub_chunks": "N", "gcd": "N", "min_chunk_in": "N", "min_chunk_out": "N", "wanted_subsize": "N",
@@ -1166,7 +1194,7 @@ def gen_formulas(item_prefix="G7"):
     out.append("def formulaParams : List (String × List String) := [")
     out.append(",\n".join(f'  ("{k}", [{", ".join(chr(34) + p + chr(34) for p in v)}])' for k, v in async_sigs.items()) + "]")
     out.append("")
-    out.append("/-- the same for the formulas of the synchronous (FFT) resamplers -/")
+    out.append("/-- the same for `make_interpolator` and the formulas of the synchronous (FFT) resamplers -/")
     out.append("def fftFormulaParams : List (String × List String) := [")
     out.append(",\n".join(f'  ("{k}", [{", ".join(chr(34) + p + chr(34) for p in v)}])' for k, v in sigs.items()) + "]")
     return "\n".join(out)
@@ -1285,6 +1313,50 @@ def split_top(txt):
     return parts
 
 
+# ------------------------------------------------------------------------------------------ G9: ambient state scan
+AMBIENT_PATTERNS = [
+    ("static mut (immutable statics carry no state unless they hold one of the cell/lock types below)", r"\bstatic\s+mut\b"),
+    ("thread_local!/lazy_static!", r"\b(?:thread_local|lazy_static)\s*!"),
+    ("OnceLock/OnceCell/Lazy*", r"\b(?:OnceLock|OnceCell|LazyLock|LazyCell|Lazy)\b"),
+    ("Atomic*/Mutex/RwLock", r"\b(?:Atomic[A-Z]\w*|Mutex|RwLock)\b"),
+    ("interior mutability (RefCell/Cell/UnsafeCell)", r"\b(?:RefCell|UnsafeCell|Cell)\b"),
+    ("floating-point control state (MXCSR/FPCR/rounding mode)",
+     r"_mm_setcsr|_MM_SET_\w+|\bsetcsr\b|ldmxcsr|fesetround|fesetenv|\bfpcr\b|set_flush_zero|set_denormals"),
+    ("process environment / globals", r"\benv::set_var\b|\bset_var\s*\(|\bset_current_dir\b|\bset_hook\b"),
+]
+
+
+def gen_ambient(item="G9.ambient_state"):
+    """C18: constructs that create or mutate state living outside a resampler instance (process-, thread- or CPU-wide),
+    counted over all non-test code of the crate.  A syntactic over-approximation, like G6."""
+    rows = []
+    for pid, (name, pat) in enumerate(AMBIENT_PATTERNS):
+        total = 0
+        where = []
+        for rel in RS_FILES:
+            path = os.path.join(SRC, rel)
+            if not os.path.exists(path):
+                raise TranslateError(item, f"source file {rel} missing")
+            src = strip_comments(open(path).read())
+            cut = src.find("#[cfg(test)]")
+            if cut >= 0:
+                src = src[:cut]
+            n = len(re.findall(pat, src))
+            if n:
+                where.append(f"{rel}:{n}")
+            total += n
+        rows.append((pid, total, name, where))
+    # every source file of the crate must be in the scan
+    present = sorted(f for f in os.listdir(SRC) if f.endswith(".rs"))
+    missing = [f for f in present if f not in RS_FILES]
+    if missing:
+        raise TranslateError(item, f"source files not covered by the scan: {missing}")
+    out = ["/-- constructs that create or mutate state outside a resampler instance: (pattern id, occurrences in non-test code) -/",
+           "def ambientStateTable : List (Nat × Nat) := ["]
+    out.append(",\n".join(f"  ({p}, {n})  /- {name}{(' @ ' + ' '.join(w)) if w else ''} -/" for p, n, name, w in rows) + "]")
+    return "\n".join(out)
+
+
 def generate():
     parts = [HEADER]
     parts.append("namespace Fast")
@@ -1316,6 +1388,9 @@ def generate():
     parts.append("namespace Effects")
     parts.append(gen_effects())
     parts.append("end Effects\n")
+    parts.append("namespace Ambient")
+    parts.append(gen_ambient())
+    parts.append("end Ambient\n")
     parts.append("namespace Forward")
     parts.append(gen_forwarding())
     parts.append("end Forward\n")
